@@ -471,3 +471,37 @@ func (h *SrvH) ObsServer(t *Trace) error {
 var _ ygot.ValidatedGoStruct
 
 func statusFromError(err error) (*status.Status, bool) { return status.FromError(err) }
+
+// SendLite delivers m on session c and waits only until one more response has been written to
+// the stream (or the RPC ended): for messages that are answered by exactly one response.
+func (h *SrvH) SendLite(c int, m *spb.ModifyRequest) (*spb.ModifyResponse, bool) {
+	f := h.sess[c]
+	f.mu.Lock()
+	before := len(f.out)
+	f.mu.Unlock()
+	select {
+	case f.in <- m:
+	case <-time.After(stepTimeout):
+		return nil, false
+	}
+	deadline := time.Now().Add(stepTimeout)
+	for {
+		f.mu.Lock()
+		if len(f.out) > before {
+			r := f.out[len(f.out)-1]
+			f.mu.Unlock()
+			return r, true
+		}
+		f.mu.Unlock()
+		select {
+		case <-f.done:
+			f.ended = true
+			return nil, false
+		default:
+		}
+		if time.Now().After(deadline) {
+			return nil, false
+		}
+		runtime.Gosched()
+	}
+}
